@@ -7,7 +7,7 @@ from typing import List
 
 from vf.cond import cond
 
-from .common import DictLoader, LiquidError, concrete_int, drive
+from .common import DictLoader, LiquidError, concrete_int, drive, untraced
 
 from liquid2 import RenderContext  # noqa: E402
 from liquid2.ast import BlockNode, ConditionalBlockNode, Node  # noqa: E402
@@ -49,6 +49,8 @@ EXTRA = [
     "{% include 'p', v: x %}{% include 'p', v: s %}{{ v }}|{% include 'p' with x as i %}{% include 'p' with s as i %}{{ i }}{{ pg }}",
     "{% for v in a %}{{ v }}{% endfor %}{{ v }}{% with pg: 1 %}{{ pg }}{% endwith %}{{ pg }}{% render 'p', v: x %}{% render 'p', v: s %}{{ v }}{{ i }}{{ a | map: q => q | first }}{{ q }}",
     "{% if b %}{% include 'rec', depth: x %}{% endif %}{{ depth }}",
+    # every position of a ternary that can hold a variable: condition, alternative, filter arguments after `if`, after `else` and after `||`, with and without an else branch
+    "{{ x if b || default: qg }}{% assign z = a.first if rx || append: k %}{{ z }}{% echo x if b else s || plus: ql.first %}{{ x | plus: h.size if b }}{{ 'q' if o.k else 'r' | append: 'a' }}",
 ]
 # The filters of a ternary's left-hand side are a recorded finding (known_findings.json): they get a program of their own
 KF_TERNARY = "{{ x | plus: 1 if b else s | upcase }}"
@@ -226,3 +228,80 @@ def twin_sound(x: int) -> bool:
     ctx = LogCtx(t, global_data={"x": x})
     t.render_with_context(ctx, StringIO())
     return not LogCtx.USED_VARS
+
+
+# ---- every expression position is visited by the analysis (one unique name per position) -----------
+UNIQ = [
+    "{{ u1 }}{{ u2.a[u3] }}{{ u4 | append: u5 }}{{ u6 | default: u7, allow_false: u8 }}{{ u9 | map: i => i[u10] }}{{ u11 | where: 'k', u12 }}",
+    "{{ u1 if u2 else u3 }}{{ u4 | plus: u5 if u6 else u7 | minus: u8 || times: u9 }}{{ u10 if u11 || default: u12 }}{{ u13 if not (u14 == u15 or u16 contains u17) and u18 in u19 }}",
+    "{% for i in u1 limit: u2 offset: u3 %}{{ i }}{{ u4 }}{% else %}{{ u5 }}{% endfor %}{% for j in (u6..u7) %}{% if j == u8 %}{% break %}{% endif %}{% endfor %}{% tablerow r in u9 cols: u10 limit: u11 offset: u12 %}{{ u13 }}{% endtablerow %}",
+    "{% if u1 %}{{ u2 }}{% elsif u3 > u4 %}{{ u5 }}{% else %}{{ u6 }}{% endif %}{% unless u7 %}{{ u8 }}{% else %}{{ u9 }}{% endunless %}{% case u10 %}{% when u11, u12 %}{{ u13 }}{% when 1 or u14 %}{% else %}{{ u15 }}{% endcase %}",
+    "{% assign z = u1 | append: u2 %}{% capture c %}{{ u3 }}{% endcapture %}{% echo u4 | plus: u5 %}{% cycle u6, u7 %}{% cycle 'g': u9, 2 %}{% with a: u10, b: u11 %}{{ a }}{{ u12 }}{% endwith %}{% increment n %}",
+    "{% render 'p', v: u1 %}{% render 'p' with u2 as v %}{% render 'p' for u3 as v %}{% include 'p', v: u4 %}{% include 'p' with u5 %}{% include 'p' for u6 as w %}",
+    "{% macro m, a, b: u1 %}{{ a }}{{ b }}{{ u2 }}{% endmacro %}{% call m, u3, b: u4 %}{% call m, u5 %}",
+    "{{ \"a${u1}b${ u2 | append: u3 }\" }}{{ 'x${ u4[u5] }' | append: \"${u6}\" }}{% liquid\n echo u7\n assign y = u8 | plus: u9\n if u10\n echo u11\n endif\n for i in u12\n echo u13\n endfor\n%}{{ u14, u15 | join: u16 }}",
+    "{% translate a: u1, count: u2 %}S{{ a }}{% plural %}P{% endtranslate %}{{ 'm' | t: u3, plural: 'ms', count: u4, who: u5 }}{{ u6 | gettext }}{{ 'c' | ngettext: 'd', u7 }}",
+    "{{ u1[u2.k][u3[u4]] }}{{ u5['a b'].c }}{{ (u6..u7) | join: u8 }}{{ u9 | find: (i, j) => j == u10 }}{{ u11 | sort: i => i.k | first }}{{ u12 | slice: u13, u14 }}",
+]
+
+
+def _uniq_missing(k: int):
+    import re as _re
+
+    src = UNIQ[k]
+    names = set(_re.findall(r"\bu\d+\b", src))
+    t = ENV.from_string(src, name=f"uq{k}")
+    an = t.analyze()
+    an2 = drive(t.analyze_async())
+    miss = sorted(n for n in names if n not in an.variables or n not in an.globals)
+    return miss, _same(an, an2)
+
+
+@cond(
+    pre=["0 <= k < len(UNIQ)"],
+    timeout=120,
+    covers="every position of the grammar that can hold a variable (output, path segments and bracketed indexes, filter positional/keyword arguments, lambda bodies, every ternary position incl. tail filters with and without else, boolean operands, loop iterable/limit/offset/range bounds/tablerow cols, if/elsif/unless/case/when operands, assign/capture/echo/cycle/with, render/include arguments and with/for bindings, macro defaults and call arguments, template-string interpolations, liquid-tag lines, array literals, translate arguments) is reported by analyze() and analyze_async(): each position holds a name that occurs nowhere else in the program, so an unvisited position cannot be masked by another use of the same name",
+    bounds="10 programs, 138 positions (program index chosen by the solver; analysis has no data dependence)",
+    grid=lambda: [(k,) for k in range(len(UNIQ))],
+)
+def s_every_position(k: int) -> bool:
+    k = concrete_int(k, 0, len(UNIQ) - 1)
+
+    def run() -> bool:
+        try:
+            miss, same = _uniq_missing(k)
+        except LiquidError:
+            return False
+        return not miss and same
+
+    return untraced(run)
+
+
+UNIQ_FILTERS = (
+    "{{ a | upcase }}{{ b if c else d | downcase }}{{ b if c || capitalize }}{{ \"${ e | strip }\" }}{% assign z = f | lstrip %}{% echo g | rstrip %}"
+    "{% liquid\n echo h | size\n assign y = i | first\n%}{{ 'x' | append: \"${ j | last }\" }}{% if k %}{{ l | abs }}{% endif %}"
+    "{% for m in n %}{{ m | ceil }}{% else %}{{ o | floor }}{% endfor %}{% capture q %}{{ r | round }}{% endcapture %}{% with s: 1 %}{{ s | plus: 1 }}{% endwith %}"
+    "{% case t %}{% when 1 %}{{ u | minus: 1 }}{% else %}{{ v | times: 2 }}{% endcase %}{% macro mm %}{{ w | escape }}{% endmacro %}{% call mm %}"
+)
+UNIQ_FILTER_NAMES = ["upcase", "downcase", "capitalize", "strip", "lstrip", "rstrip", "size", "first", "append", "last", "abs", "ceil", "floor", "round", "plus", "minus", "times", "escape"]
+
+
+@cond(
+    pre=["0 <= k < len(UNIQ_FILTER_NAMES)"],
+    timeout=120,
+    covers="every position that can apply a filter (output, ternary alternative and tail, template-string interpolation - also inside a filter argument -, assign, echo, liquid-tag lines, if/for/else/capture/with/case/macro bodies) reports its filter in analyze().filters and analyze_async().filters: each position uses a filter that occurs nowhere else (the left-hand side of a ternary is the recorded finding and is not part of this program)",
+    bounds="one program, 18 filter positions (the filter asked for is chosen by the solver)",
+    grid=lambda: [(k,) for k in range(len(UNIQ_FILTER_NAMES))],
+)
+def s_every_filter_position(k: int) -> bool:
+    k = concrete_int(k, 0, len(UNIQ_FILTER_NAMES) - 1)
+
+    def run() -> bool:
+        t = ENV.from_string(UNIQ_FILTERS, name="uqf")
+        try:
+            an, an2 = t.analyze(), drive(t.analyze_async())
+        except LiquidError:
+            return False
+        return UNIQ_FILTER_NAMES[k] in an.filters and UNIQ_FILTER_NAMES[k] in an2.filters
+
+    return untraced(run)
